@@ -3,6 +3,7 @@
 package gotypes
 
 import (
+	"errors"
 	"go/ast"
 	"go/parser"
 	"go/token"
@@ -59,5 +60,28 @@ func Check(src string, imp types.Importer) *Result {
 		Error:     func(err error) { r.Errs = append(r.Errs, err) },
 	}
 	r.Pkg, _ = conf.Check("main", r.Fset, []*ast.File{f}, r.Info)
+	// go/types checks the signature of main but not its presence; the language
+	// specification ("Program execution") and gc require package main to declare
+	// a function main.
+	// Likewise a program is package main, and gc refuses a function
+	// declaration without body (go/types accepts it as externally defined).
+	if len(r.Errs) == 0 {
+		found := false
+		for _, d := range f.Decls {
+			if fd, ok := d.(*ast.FuncDecl); ok {
+				if fd.Recv == nil && fd.Name.Name == "main" {
+					found = true
+				}
+				if fd.Body == nil {
+					r.Errs = append(r.Errs, errors.New("missing function body"))
+				}
+			}
+		}
+		if f.Name.Name != "main" {
+			r.Errs = append(r.Errs, errors.New("package name must be main"))
+		} else if !found {
+			r.Errs = append(r.Errs, errors.New("function main is undeclared in the main package"))
+		}
+	}
 	return r
 }
